@@ -55,6 +55,8 @@ def diff_ops(seed, ncalls):
     fs = ModelFS(_Eng(), '/w')
     names = ['a', 'b', 'c']
     paths = [posixpath.join(*[rnd.choice(names) for _ in range(rnd.randint(1, 3))]) for _ in range(40)]
+    # a few paths with a component longer than NAME_MAX (ENAMETOOLONG vs ENOENT / ENOTDIR precedence)
+    paths += [posixpath.join(*[rnd.choice(names + ['L' * 256]) for _ in range(rnd.randint(1, 3))]) for _ in range(8)]
     ops = ['mkdir', 'rmdir', 'remove', 'rename', 'listdir', 'isfile', 'isdir', 'write', 'makedirs', 'stat', 'open', 'makedirs_ok']
     n = mism = 0
     try:
